@@ -143,7 +143,8 @@ def o5(tier):
                     ob.require(u(e.args[1]) in GID, 'O5/retry-args', 'retry candidates of another group', p)
                 if ev_is(e, 'process_message'):
                     ob.require(u(e.args[1]) == 'event' or u(e.args[1]) == '*event', 'O5/reprocess-args', f're-processes {u(e.args[1])}', p)
-                    ob.require(p.ret is e.ret or u(p.ret) == u(e.ret), 'O5/reprocess-result', 'result of the re-processing is not returned', p)
+                    same_ = p.ret is e.ret or u(p.ret) == u(e.ret) or (isinstance(p.ret, Agg) and p.ret.fields and u(p.ret.fields[0]).startswith(u(e.ret) + '.' + vname(p.ret) + '.'))
+                    ob.require(same_, 'O5/reprocess-result', 'result of the re-processing is not returned', p)
             # every retry candidate is marked
             ff = [e for e in p.trace if ev_is(e, 'find_failed_messages_for_retry')]
             if ff and ob.eng.prove(p, ff[0].ret.discriminant() == 0)[0]:
